@@ -1219,8 +1219,20 @@ impl Writer {
       // If all_irrelevant_before is still None, then TopicCache has SNs that are
       // less than equal to the requested "unsent_sn". But might not have that exact
       // SN.
+      // A sample written for one particular other reader (possibly before this reader was
+      // matched, so that it is not in pending_gaps) is irrelevant to this reader.
+      let meant_for_other_reader = self
+        .history_buffer
+        .get_by_sn(unsent_sn)
+        .and_then(|cc| cc.write_options.to_single_reader())
+        .is_some_and(|single_reader_guid| single_reader_guid != reader_guid);
+
       if pending_gaps.contains(&unsent_sn) || all_irrelevant_before.is_some() {
         no_longer_relevant.extend(pending_gaps);
+      } else if meant_for_other_reader {
+        // send_cache_change would refuse to send it. Tell the reader with a GAP instead of
+        // silently dropping the request.
+        no_longer_relevant.insert(unsent_sn);
       } else {
         // Reader not pending gap on unsent_sn. Get the cache change from topic cache
         if let Some(cc) = self.history_buffer.get_by_sn(unsent_sn) {
